@@ -3,8 +3,13 @@
 package cluster
 
 import (
+	"fmt"
 	"net"
+	"reflect"
 	"time"
+	"unsafe"
+
+	"github.com/basekick-labs/arc/internal/license"
 
 	"github.com/basekick-labs/arc/internal/cluster/protocol"
 	"github.com/basekick-labs/arc/internal/cluster/security"
@@ -33,3 +38,46 @@ func (c *Coordinator) VerifReplicateSync(conn net.Conn, req *protocol.ReplicateS
 }
 
 func (c *Coordinator) VerifNonceLen() int { return c.nonceCache.Len() }
+
+// VerifC26Lifecycle goes through the REAL lifecycle — NewCoordinator, Start, StartReplication, the
+// TCP accept loop — so that the nonce cache is the one Start() really constructs (or fails to).
+// license.Client has no constructor usable offline, so an in-memory enterprise licence is planted
+// into its unexported field. raftDir == "" gives a writer without Raft.
+func VerifC26Lifecycle(secret, clusterName, raftDir string) (c *Coordinator, addr string, err error) {
+	lc := &license.Client{}
+	f := reflect.ValueOf(lc).Elem().FieldByName("license")
+	if !f.IsValid() {
+		return nil, "", fmt.Errorf("license.Client has no field named license")
+	}
+	lic := &license.License{Tier: license.TierEnterprise, Status: "active", Features: []string{license.FeatureClustering}}
+	reflect.NewAt(f.Type(), unsafe.Pointer(f.UnsafeAddr())).Elem().Set(reflect.ValueOf(lic))
+	c, err = NewCoordinator(&CoordinatorConfig{
+		Config: &config.ClusterConfig{
+			Enabled: true, NodeID: "writer-1", Role: "writer", ClusterName: clusterName, SharedSecret: secret,
+			CoordinatorAddr: "127.0.0.1:0", RaftDataDir: raftDir, RaftBindAddr: "127.0.0.1:0", RaftBootstrap: raftDir != "",
+			RaftElectionTimeout: 1000, RaftHeartbeatTimeout: 1000, RaftSnapshotInterval: 300, RaftSnapshotThreshold: 8192,
+			ReplicationEnabled: true, ReplicationBufferSize: 64, HealthCheckInterval: 60, HealthCheckTimeout: 5,
+			UnhealthyThreshold: 3, HeartbeatInterval: 60,
+		},
+		LicenseClient: lc, Version: "verif", Logger: zerolog.Nop(),
+	})
+	if err != nil {
+		return nil, "", err
+	}
+	if err = c.Start(); err != nil {
+		return nil, "", err
+	}
+	if err = c.StartReplication(); err != nil {
+		c.Stop()
+		return nil, "", err
+	}
+	return c, c.listener.Addr().String(), nil
+}
+
+// VerifNonceLenOrMinus1 is -1 when Start() left the cache nil.
+func (c *Coordinator) VerifNonceLenOrMinus1() int {
+	if c.nonceCache == nil {
+		return -1
+	}
+	return c.nonceCache.Len()
+}
